@@ -94,6 +94,33 @@ pub struct WorldSpec {
 	/// per-node block delivery styles (empty = all use `connect_style`)
 	#[serde(default)]
 	pub node_styles: Vec<u8>,
+	/// per-node `our_to_self_delay` (the CSV a node imposes on its peer's own outputs), index modulo length;
+	/// empty = the library default for every node. Unequal values make the two sides of a channel carry
+	/// different contest delays.
+	#[serde(default)]
+	pub node_delays: Vec<u16>,
+	/// per-node deviations from the shared handshake limits (index modulo length; empty = every node uses the
+	/// spec's values), so that the two sides of a channel impose different reserves, minimums and HTLC limits
+	#[serde(default)]
+	pub node_tweaks: Vec<NodeTweak>,
+	/// forwarding policy (fee base msat, fee ppm, cltv_expiry_delta) per channel end, index (2 * channel + side,
+	/// side 0 = opener) modulo length; empty = every channel end carries the spec's policy. Set when the channel
+	/// is created, so a node's channels advertise different policies.
+	#[serde(default)]
+	pub chan_policies: Vec<(u32, u32, u16)>,
+}
+
+/// selectors, 0 = the spec's value
+#[derive(Clone, Debug, Default, Serialize, Deserialize)]
+pub struct NodeTweak {
+	/// 1 half, 2 double (at most 10 %), 3 one per cent
+	pub reserve: u8,
+	/// 1 one msat, 2 one more, 3 double
+	pub htlc_min: u8,
+	/// 1 one fewer, 2 five more, 3 the protocol maximum
+	pub max_accepted: u8,
+	/// 1 half, 2 everything
+	pub inflight: u8,
 }
 
 pub fn connect_style_of(i: u8) -> ConnectStyle {
@@ -132,13 +159,55 @@ impl WorldSpec {
 		c
 	}
 
+	/// one configuration per node: `user_config` with the per-node settings applied
+	pub fn node_configs(&self, n: usize) -> Vec<UserConfig> {
+		let cfg = self.user_config();
+		(0..n)
+			.map(|i| {
+				let mut c = cfg.clone();
+				if !self.node_delays.is_empty() {
+					c.channel_handshake_config.our_to_self_delay = self.node_delays[i % self.node_delays.len()];
+				}
+				if !self.node_tweaks.is_empty() {
+					let t = &self.node_tweaks[i % self.node_tweaks.len()];
+					let h = &mut c.channel_handshake_config;
+					h.their_channel_reserve_proportional_millionths = match t.reserve {
+						1 => self.reserve_ppm / 2,
+						2 => (self.reserve_ppm * 2).min(100_000),
+						3 => 10_000,
+						_ => self.reserve_ppm,
+					};
+					h.our_htlc_minimum_msat = match t.htlc_min {
+						1 => 1,
+						2 => self.htlc_min_msat + 1,
+						3 => self.htlc_min_msat * 2,
+						_ => self.htlc_min_msat,
+					};
+					h.our_max_accepted_htlcs = match t.max_accepted {
+						1 => self.max_accepted.saturating_sub(1).max(1),
+						2 => (self.max_accepted + 5).min(483),
+						3 => 483,
+						_ => self.max_accepted,
+					};
+					let pct = match t.inflight {
+						1 => (self.inflight_pct / 2).max(1),
+						2 => 100,
+						_ => self.inflight_pct,
+					};
+					h.announced_channel_max_inbound_htlc_value_in_flight_percentage = pct;
+					h.unannounced_channel_max_inbound_htlc_value_in_flight_percentage = pct;
+				}
+				c
+			})
+			.collect()
+	}
+
 	/// Build the world and open the topology's channels.
 	pub fn build(&self, keep_images: bool) -> Sim {
 		let n = self.topo.nodes();
-		let cfg = self.user_config();
 		let w = World::new(WorldCfg {
 			n,
-			configs: vec![cfg; n],
+			configs: self.node_configs(n),
 			keep_images,
 			deferred_monitor: self.deferred,
 			connect_style: connect_style_of(self.connect_style),
@@ -164,7 +233,12 @@ impl WorldSpec {
 			let want = v * self.push_permille[i % self.push_permille.len()] as u64;
 			let keep_sat = (v / 5).max(10_000);
 			let push = want.min((v - keep_sat) * 1000);
-			sim.open_channel(*a, *b, v, push);
+			if self.chan_policies.is_empty() {
+				sim.open_channel(*a, *b, v, push);
+			} else {
+				let k = self.chan_policies.len();
+				sim.open_channel_with(*a, *b, v, push, Some(self.chan_policies[(2 * i) % k]), Some(self.chan_policies[(2 * i + 1) % k]));
+			}
 		}
 		sim
 	}
@@ -191,9 +265,18 @@ pub fn world_spec(topos: Vec<Topology>) -> impl Strategy<Value = WorldSpec> + Cl
 			prop_oneof![Just(253u32), 253u32..2_500],
 			proptest::bool::weighted(0.15),
 			0u8..11,
+			prop_oneof![2 => Just(vec![]), 3 => proptest::collection::vec(prop_oneof![Just(144u16), Just(145u16), 146u16..=210], 2..=4)],
+			prop_oneof![
+				1 => Just(vec![]),
+				1 => proptest::collection::vec((0u8..4, 0u8..4, 0u8..4, 0u8..3).prop_map(|(reserve, htlc_min, max_accepted, inflight)| NodeTweak { reserve, htlc_min, max_accepted, inflight }), 2..=4)
+			],
+			prop_oneof![
+				1 => Just(vec![]),
+				1 => proptest::collection::vec((prop_oneof![Just(0u32), Just(1000u32), 0u32..5_000], prop_oneof![Just(0u32), 0u32..20_000], prop_oneof![Just(72u16), 72u16..200]), 3..=8)
+			],
 		),
 	)
-		.prop_map(|((topo, ctype, value_sat, push_permille, reserve_ppm, htlc_min_msat, inflight_pct, max_accepted), (dfix, dmul, fb, fp, cltv, feerate, deferred, cs))| WorldSpec {
+		.prop_map(|((topo, ctype, value_sat, push_permille, reserve_ppm, htlc_min_msat, inflight_pct, max_accepted), (dfix, dmul, fb, fp, cltv, feerate, deferred, cs, node_delays, node_tweaks, chan_policies))| WorldSpec {
 			topo,
 			ctype,
 			value_sat,
@@ -211,6 +294,9 @@ pub fn world_spec(topos: Vec<Topology>) -> impl Strategy<Value = WorldSpec> + Cl
 			deferred,
 			connect_style: cs,
 			node_styles: vec![],
+			node_delays,
+			node_tweaks,
+			chan_policies,
 		})
 }
 
